@@ -67,9 +67,9 @@ class Signal(object):
         universe_assets = self.universe.get_assets(dt)
 
         # TODO: Assume universe never decreases for now
-        extra_assets = list(set(universe_assets) - set((self.assets)))
-        for extra_asset in extra_assets:
-            self.assets.append(extra_asset)
+        for extra_asset in universe_assets:
+            if extra_asset not in self.assets:
+                self.assets.append(extra_asset)
 
     @abstractmethod
     def __call__(self, asset, lookback):
